@@ -36,6 +36,9 @@ pub fn generate(g: &mut G, _index: u64) -> Scenario {
         // a handler timeout is no limit for the life-cycle callbacks
         spec.timeout = Some(g.range(3, 15));
         spec.stopped_sleep = g.range(20, 40);
+        if g.chance(1, 2) {
+            spec.on_start.push(Work::Sleep(g.range(20, 40)));
+        }
     }
     if stream {
         spec.entry = g.pick(&[
